@@ -4,6 +4,7 @@ mod archs;
 mod bv;
 mod explore;
 mod gen;
+mod isa_a64;
 mod isa_mips;
 mod isa_ppc;
 mod native;
